@@ -1258,7 +1258,7 @@ udp_ep_init(
 	ep->rcvmax           = NNG_UDP_RECVMAX;
 	ep->copymax          = NNG_UDP_COPYMAX;
 	ep->max_peers        = NNG_UDP_MAX_PEERS;
-	if ((rv = nni_msg_alloc(&ep->rx_payload, ep->rcvmax) != 0)) {
+	if ((rv = nni_msg_alloc(&ep->rx_payload, ep->rcvmax)) != 0) {
 		// the core calls udp_ep_fini on failure, which frees the ring
 		return (rv);
 	}
